@@ -9,6 +9,7 @@
     [HashMap]); a host inside the collection is identified by the index of the
     builder call that added it. *)
 From KV Require Export Bytes.
+From KV Require Http1Read.
 Open Scope N_scope.
 
 (** ------------------------------------------------------------------------------
@@ -848,21 +849,16 @@ Definition d_wreq (x : xval) : option wreq :=
       end
   | _ => None
   end.
-(** the stand-in for [Authority::try_from] in the executable model: non-empty, letters, digits,
-    '-', '.', '_', ':', '[', ']' only (a subset of the values the crate accepts; by
-    HostsProofs.wire_request_auth_irrelevant the replies of the repaired code do not depend on it) *)
-Definition auth_ok_approx (h : bytes) : bool :=
-  match h with
-  | [] => false
-  | _ => forallb (fun c => dns_char c || c_upper c || (c =? 95) || (c =? 58) || (c =? 91) || (c =? 93)) h
-  end.
+(** [Authority::try_from] in the executable model: the transcription of the crate's parser made for C07
+    (Model/Http1Read.v [authority_ok]) *)
+Definition auth_ok_http : bytes -> bool := Http1Read.authority_ok.
 Definition run_wire (x : xval) : xval :=
   match x with
   | XL [hosts; reqs] =>
       match d_list d_whost hosts, d_list d_wreq reqs with
       | Some ops, Some reqs =>
           match build ops with
-          | Ok c => XL [XN 0; XL (map x_wire (wire_history auth_ok_approx fixed c (fun _ => hstate0) reqs))]
+          | Ok c => XL [XN 0; XL (map x_wire (wire_history auth_ok_http fixed c (fun _ => hstate0) reqs))]
           | Err e => XL [XN 1; XN e]
           | Panic => XL [XN 2]
           end
